@@ -720,7 +720,11 @@ theorem C35_gen_codec_coverage :
     (elanetStack.filter fun e => (P2PCodec.layoutOfStr "elanet" e.caseCmd).isNone).map (·.caseCmd) = [] ∧
     (dposStack.filter fun e => (P2PCodec.layoutOfStr "dpos" e.caseCmd).isNone).map (·.caseCmd) =
       ["version", "res_blc", "res_con", "ill_vote"] ∧
-    (Gen.C35.checkAddr.filter fun e => (P2PCodec.layoutOfStr "checkaddr" e.caseCmd).isNone).map (·.caseCmd) = [] := by
+    (Gen.C35.checkAddr.filter fun e => (P2PCodec.layoutOfStr "checkaddr" e.caseCmd).isNone).map (·.caseCmd) = [] ∧
+    -- what the node writes without ever reading it: `merkleblock` (read by SPV peers); its codec is modelled too
+    Gen.C35.writeOnly.map (fun e => (e.caseCmd, e.max, (P2PCodec.layoutOfStr "spv" e.caseCmd).isSome)) =
+      [("merkleblock", 9000000, true)] ∧
+    Gen.C35.maxTxPerBlock = P2PCodec.maxTxPerBlock := by
   decide
 
 /-! ## what an honest writer can make a reader allocate -/
